@@ -299,13 +299,34 @@ def run_case(case):
     else:
         name, meth = case["model"], case["method"]
         # "retrain": the user re-trains the ORIGINAL estimator object in place, outside the wrapper
-        ops = [("fit", 0), ("fit", 1), ("transform",), ("retrain", 1)]
+        # "inplace": the user edits the fitted arrays of the ORIGINAL estimator in place (coef_ *= 0.5, scale_ ...): same objects, new content
+        ops = [("fit", 0), ("fit", 1), ("transform",), ("retrain", 1), ("inplace",)]
+
+        def edit_in_place(est, seen=None):
+            seen = set() if seen is None else seen
+            n = 0
+            if id(est) in seen:
+                return 0
+            seen.add(id(est))
+            for an, av in list(vars(est).items()):
+                if isinstance(av, numpy.ndarray) and av.dtype.kind == "f" and av.flags.writeable and an.endswith("_") and av.size:
+                    av *= 0.5
+                    av += 0.125
+                    n += 1
+                elif isinstance(av, (list, tuple)):
+                    for it in av:
+                        sub = it[1] if isinstance(it, tuple) and len(it) >= 2 else it
+                        if hasattr(sub, "get_params") and not isinstance(sub, type):
+                            n += edit_in_place(sub, seen)
+                elif hasattr(av, "get_params") and not isinstance(av, type):
+                    n += edit_in_place(av, seen)
+            return n
         resolved = meth
         for depth in range(1, L + 1):
             for hist in itertools.product(ops, repeat=depth):
                 if not any(h[0] == "fit" for h in hist) or hist[-1][0] != "transform":
                     continue
-                if sum(1 for h in hist if h[0] == "retrain") > 1:
+                if sum(1 for h in hist if h[0] in ("retrain", "inplace")) > 1:
                     continue
                 cnt += 1
                 hdesc = "estimator=%s method=%r copy_estimator=%s trainable=%s history=%r" % (name, meth, case["copy"], case["trainable"], list(hist))
@@ -327,6 +348,13 @@ def run_case(case):
                 for op in hist:
                     trans += 1
                     try:
+                        if op[0] == "inplace":
+                            if not edit_in_place(base):
+                                break       # nothing editable in this model: the history adds nothing
+                            snap = pickle.dumps(base)
+                            user_touched = True
+                            touched_since_fit = True
+                            continue
                         if op[0] == "retrain":
                             base.fit(D[op[1]]["X"], yfor(name, D[op[1]]))
                             snap = pickle.dumps(base)
